@@ -1,4 +1,5 @@
 (* C14 — Reset makes a used Reader or Writer indistinguishable from a new one. *)
+From V Require Import Window.Dict Window.DictSpec Window.DictThms.
 From V Require Import Base.Prelude Life.Reset Life.Writers.
 
 (* the repaired Reset carries nothing that can influence the next stream *)
@@ -25,3 +26,16 @@ Theorem writer_reset_is_init : forall pl cs,
   winv (snd (wcalls true (lw_init pl) cs)).
 Proof. intros pl cs. exact (calls_inv (lw_init pl) cs (init_inv pl)). Qed.
 Print Assumptions writer_reset_is_init.
+
+(* Reset and the recycled window (flate.Reader.Reset keeps the history buffer): whatever the
+   previous stream left in the buffer and whatever its capacity, decoding any command stream
+   whose distances stay inside its own output delivers exactly the LZ77 decoding - the same
+   bytes as with a fresh buffer. (Outside that protocol the stale bytes DO leak: stale_leak;
+   it is the Reader's distance check that keeps streams apart.) *)
+Theorem flate_window_reset_equals_fresh : forall size0 size rec0 pre st0 fin cs,
+  size_ok size0 -> dd_init size0 rec0 = Ok st0 -> proto st0 pre -> snd (dd_run st0 pre) = fin ->
+  size_ok size -> (1 <= d_cap fin)%Z -> cmds_ok size [] cs ->
+  exists st1 st', dd_init size (Some (d_arr fin)) = Ok st1 /\
+                  drive st1 cs [] = Ok (lz_decode cs, st').
+Proof. exact reset_equals_fresh. Qed.
+Print Assumptions flate_window_reset_equals_fresh.
